@@ -728,6 +728,65 @@ def perturb(scene, seed):
     return sc
 
 
+# ------------------------------------------------------------------ oracle-decided family
+def _rotation(rng):
+    """A general rotation matrix (axis-angle), orthonormal to rounding."""
+    while True:
+        ax = [rng.gauss(0, 1) for _ in range(3)]
+        n = math.sqrt(sum(x * x for x in ax))
+        if n > 1e-3:
+            break
+    x, y, z = (a / n for a in ax)
+    th = rng.uniform(0, 2 * math.pi)
+    c, s, C = math.cos(th), math.sin(th), 1 - math.cos(th)
+    return [[c + x * x * C, x * y * C - z * s, x * z * C + y * s],
+            [y * x * C + z * s, c + y * y * C, y * z * C - x * s],
+            [z * x * C - y * s, z * y * C + x * s, c + z * z * C]]
+
+
+def oracle_scene(seed, sid, grid_n=9):
+    """NOT in the lattice vocabulary (real-valued parameters, irrational angles, general rotations):
+    regular prisms with n sides and any orientation, parallelepipeds.  Decided by analytic membership
+    functions in the harness (written from the documented definitions) -- labelled oracle-decided."""
+    g = Gen(seed)
+    rng = g.rng
+    size = g.ri(10, 13)
+    b = {"k": "box", "h": [size, size, size]}
+    mats, balls = [], []
+    for j in range(g.ri(2, 5)):
+        if rng.random() < 0.5:
+            n = rng.choice([3, 5, 6, 7, 8, 4])
+            a, hh = round(rng.uniform(1.5, 4), 3), round(rng.uniform(1.5, 4), 3)
+            o = {"k": "oprism", "n": n, "a": a, "hh": hh, "ori": rng.choice([0.0, 0.5, round(rng.random() * 0.999, 3)])}
+            rad = math.hypot(a / math.cos(math.pi / n), hh)
+            kind = "oracle:prism%d" % n
+        else:
+            h = [round(rng.uniform(1.5, 4), 3) for _ in range(3)]
+            o = {"k": "ppiped", "h": h, "alpha": rng.choice([0.0, round(rng.uniform(-0.15, 0.15), 3)]),
+                 "theta": rng.choice([0.0, round(rng.uniform(0.0, 0.12), 3)]), "phi": round(rng.random() * 0.999, 3)}
+            ta, tt = math.tan(2 * math.pi * o["alpha"]), math.tan(2 * math.pi * o["theta"])
+            rad = math.sqrt((h[0] + h[1] * abs(ta) + h[2] * tt) ** 2 + (h[1] + h[2] * tt) ** 2 + h[2] ** 2)
+            kind = "oracle:parallelepiped"
+        for _ in range(40):
+            lim = size - rad - 0.5
+            if lim <= 0:
+                break
+            t = [round(rng.uniform(-lim, lim), 3) for _ in range(3)]
+            if all(math.dist(t, c) > rad + r + 0.1 for c, r in balls):
+                balls.append((t, rad))
+                g.count(kind)
+                mats.append({"label": "u0.m%d" % len(mats),
+                             "obj": {"k": "otf", "R": _rotation(rng) if rng.random() < 0.8 else IDENT_F, "t": t, "c": o}})
+                break
+    units = [{"name": "u0", "boundary": b, "bz": "exterior", "bg": "u0.bg", "objs": [b], "daughters": [], "materials": mats}]
+    s = finish_scene(g, sid, seed, "oracle", units, grid_n, [([int(c[0]), int(c[1]), int(c[2])], int(r) + 1) for c, r in balls])
+    s["oracle"] = 1
+    return s
+
+
+IDENT_F = [[1.0, 0.0, 0.0], [0.0, 1.0, 0.0], [0.0, 0.0, 1.0]]
+
+
 def sample_slabs(scenes, keep, seed):
     """Probe only `keep` of the z-slabs of every scene (always including the middle one)."""
     rng = random.Random(seed)
